@@ -19,7 +19,10 @@ Lemma tie_C10 :
         "time.Now"; "set conn.lastsent"; "if{"; "return"; "}"; "return"]%string
   /\ firstn 9 flow_client_Conn_write
      = ["if{"; "conn.rateLimit"; "if{"; "t.Seconds"; "time.After"; "recv time.After(t)"; "}"; "}";
-        "conn.io.WriteString"]%string.
+        "conn.io.WriteString"]%string
+  (* Client() reads the clock exactly once (the "lastsent: time.Now()" initialisation; the
+     field name itself is not among the emitted facts) *)
+  /\ count_occ string_dec flow_client_Client "time.Now"%string = 1%nat.
 Proof. repeat split; vm_compute; reflexivity. Qed.
 
 (* ---------- C10_rule ---------- *)
@@ -139,6 +142,27 @@ Theorem C10_hold_oracle : forall bad e1 e2 m1 r1 m2,
   C10_hold_ok (s_chars e1) bad (s_chars e2) (s_a2 e1) (fs_bad st1) m1 r1 (fs_bad st2) (s_a2 e2) m2 = true.
 Proof. exact hold_oracle_holds. Qed.
 
+(* ---------- a genuinely fresh client ---------- *)
+(* from badness 0 and lastsent = creation time: the charges of lines 1..j never exceed the
+   write time of line j (measured from the client's creation) by more than 10 s — no slack
+   of two charges here, so the first line that takes the penalty over 10 s must wait *)
+Theorem C10_fresh : forall created l e,
+  honoured (fresh created) created (l ++ [e]) ->
+  charge (l ++ [e]) <= (s_w e - created) + threshold.
+Proof.
+  intros created l e H.
+  exact (anchored_bound (fresh created) l e ltac:(unfold fresh, threshold; cbn [fs_bad]; lia) H).
+Qed.
+
+Theorem C10_fresh_oracle : forall created l,
+  0 <= created -> honoured (fresh created) created l -> C10_fresh_ok (wire_obs l) = true.
+Proof. exact fresh_oracle_holds. Qed.
+
+Theorem C10_fresh_tolerance : forall tws mws acc,
+  Forall2 (fun t m => fst t = fst m /\ snd t <= snd m) tws mws ->
+  fresh_from acc tws = true -> fresh_from acc mws = true.
+Proof. exact fresh_from_late. Qed.
+
 (* ---------- the one-call oracle ---------- *)
 (* C10_ok accepts an observation of one rateLimit call iff some admissible pair of clock
    readings t0 <= a <= a' = t0+lastoff <= t0+slack makes the rule produce exactly it *)
@@ -206,6 +230,14 @@ Example C10_hold_examples :
   /\ C10_hold_ok 1 9700000000 1 5000 11708329333 2008438333 2008500000 11708067666 2008601000 2008651000 = false.
 Proof. repeat split; vm_compute; reflexivity. Qed.
 
+(* the fresh oracle: NICK (9 bytes), USER (24) and three 40-byte lines sent at once by a
+   fresh client: 11.275 s of charge, so the 5th line may arrive no earlier than 1.275 s
+   after creation.  Held for its charge (2.35 s): accepted; written at once: rejected. *)
+Example C10_fresh_examples :
+  C10_fresh_ok [(9, 1000000); (24, 1100000); (40, 1200000); (40, 1300000); (40, 2334733333)] = true
+  /\ C10_fresh_ok [(9, 1000000); (24, 1100000); (40, 1200000); (40, 1300000); (40, 1400000)] = false.
+Proof. split; vm_compute; reflexivity. Qed.
+
 Print Assumptions tie_C10.
 Print Assumptions C10_rule.
 Print Assumptions C10_rule_charge.
@@ -237,3 +269,6 @@ Theorem gen_C10_rateLimit : forall bad last chars a a',
      Ok (fs_bad st', fs_last st', t)).
 Proof. exact go_rateLimit_eq. Qed.
 Print Assumptions gen_C10_rateLimit.
+Print Assumptions C10_fresh.
+Print Assumptions C10_fresh_oracle.
+Print Assumptions C10_fresh_tolerance.
